@@ -78,6 +78,8 @@ def op_s(o):
             return "const %d_%s" % (c["int"], c["ty"])
         if "fn" in c:
             return "fn " + c["fn"]
+        if "static" in c:
+            return "static " + c["static"]
         return c["repr"]
     return str(o)
 
